@@ -26,7 +26,8 @@ import (
 	"time"
 )
 
-const verifRoot = "/verif"
+// verifRoot is the directory that holds check, harness/, known_findings.json, evidence/.
+var verifRoot = envOr("VERIF_ROOT", "/verif")
 
 type tierCfg struct {
 	Shards   int      `json:"shards"`
